@@ -1,7 +1,7 @@
 (* C13 -- searching leaves the game state untouched and is reproducible (model level).
    The history is threaded through the model exactly as the Rust pushes and pops it; the position is passed by value. *)
 From Coq Require Import NArith ZArith List Bool.
-From Rawr Require Import Consts Bits Magic Position MoveGen MakeMove Eval TT Search SearchFacts.
+From Rawr Require Import Consts Bits Magic Position MoveGen MakeMove Eval TT Search SearchFacts FuelFacts.
 Local Open Scope Z_scope.
 
 (* whatever the stop predicate (depth, node or time limit), window, depth, table and history: a search that returns
@@ -20,6 +20,14 @@ Theorem C13_search_deterministic : forall (l : Limit) fuel p hist tt1 tt2,
   tt1 = tt2 -> root (stop_of l) fuel p hist tt1 = root (stop_of l) fuel p hist tt2.
 Proof. intros l fuel p hist tt1 tt2 ->. reflexivity. Qed.
 
+
+(* ---- what "modulo fuel" means: a result, once defined, is the same for every larger amount of fuel (the fuel of the model only
+   bounds the recursion depth; it is not an input of the search) *)
+Theorem C13_result_does_not_depend_on_fuel : forall (stopf : Stats -> bool) f f' p hist tt r, (f <= f')%nat ->
+  root stopf f p hist tt = Some r -> root stopf f' p hist tt = Some r.
+Proof. exact root_fuel_mono. Qed.
+
 Print Assumptions C13_negamax_keeps_history.
 Print Assumptions C13_root_keeps_history.
 Print Assumptions C13_search_deterministic.
+Print Assumptions C13_result_does_not_depend_on_fuel.
